@@ -21,4 +21,5 @@ PROPS = {
     "C10": dict(pkg="c10", run="^TestC10$", shards=8, timeout_quick=600, timeout_thorough=2400, net=110),
     "C13": dict(pkg="c13", run="^TestC13$", shards=8, timeout_quick=900, timeout_thorough=3000, net=113),
     "C07": dict(pkg="c07", run="^TestC07$", shards=8, timeout_quick=900, timeout_thorough=3000, net=107),
+    "C18": dict(pkg="c18", run="^TestC18$", shards=8, timeout_quick=1200, timeout_thorough=3000, net=118),
 }
